@@ -209,6 +209,68 @@ theorem step_slotwise (E : EnvSem σ α ω ρ) (s : Sys σ α ω ρ) (d : Dummy 
   simp only [Dummy.runOpRaw, Dummy.post, hplan]
   rw [hri2, hri3, l1, hrep]
 
+/-! ### `step_async` / `step_wait` / `close` as separate calls, flags `waiting` and `closed` -/
+
+/-- **Equivalence extended to the calls that leave state in the pipes**: for every history of calls inside the
+protocol (`phaseAfter … = some _`: operations and `step_async` only when no step is outstanding, `step_wait` only after
+`step_async`, `close` at any point — also while a step is outstanding — and nothing but `close` after `close`) and
+every schedule, `SubprocVecEnv` never blocks and every call returns what `DummyVecEnv` returns (rewards after
+`DummyVecEnv`'s float32 conversion, F-C02-a). -/
+theorem subproc_equiv_dummy_calls (E : EnvSem σ α ω ρ) (cast : ρ → ρ) (envs : List σ) (cs : List (Call α ω))
+    (sch : Sched) (p : Phase) (h : phaseAfter envs.length .idle cs = some p) :
+    ∃ x' sch' outs, Sub.runAll E (Sub.init envs) sch cs = some (x', sch', outs) ∧
+      (Dum.runAll E cast (Dum.init envs) cs).2 = outs.map (Out.castRews cast) :=
+  let ⟨x', sch', outs, h1, h2, _⟩ :=
+    runAll_equiv E cast envs.length cs .idle p (Sub.init envs) (Dum.init envs) sch (XRel.init E envs) h
+  ⟨x', sch', outs, h1, h2⟩
+
+/-- **`close` drains and terminates**: after any history inside the protocol that ends closed — `close` may have been
+called while a step was outstanding — under every schedule the parent did not block, `closed` is set, no worker is left
+with a command in its inbox or a reply in its outbox, and a further `close` is a no-op (same object, schedule
+untouched, nothing sent). -/
+theorem close_drains_and_terminates (E : EnvSem σ α ω ρ) (envs : List σ) (cs : List (Call α ω)) (sch : Sched)
+    (h : phaseAfter envs.length .idle cs = some .closed) :
+    ∃ x' sch' outs, Sub.runAll E (Sub.init envs) sch cs = some (x', sch', outs) ∧ x'.closed = true ∧
+      (∀ p ∈ x'.sys.procs, p.inbox = [] ∧ p.outbox = []) ∧
+      ∀ sch2, Sub.run E x' sch2 Call.close = some (x', sch2, { resetInfos := x'.sys.resetInfos }) := by
+  obtain ⟨x', sch', outs, h1, _, hcl, _, ws, hws⟩ :=
+    runAll_equiv E id envs.length cs .idle .closed (Sub.init envs) (Dum.init envs) sch (XRel.init E envs) h
+  refine ⟨x', sch', outs, h1, hcl, views_quiet_drained E _ ws hws, ?_⟩
+  intro sch2
+  simp only [Sub.run, hcl, if_true]
+
+/-- **The `waiting` flag**: after any history inside the protocol that has not closed the object, under every
+schedule, `waiting` is set exactly when a `step_async` has been sent whose `step_wait` has not been called, and then
+every worker owes exactly one reply (one command in its inbox or one reply in its outbox); otherwise all pipes are
+empty. -/
+theorem waiting_flag_inv (E : EnvSem σ α ω ρ) (envs : List σ) (cs : List (Call α ω)) (sch : Sched) (p : Phase)
+    (h : phaseAfter envs.length .idle cs = some p) (hp : p ≠ .closed) :
+    ∃ x' sch' outs, Sub.runAll E (Sub.init envs) sch cs = some (x', sch', outs) ∧ x'.closed = false ∧
+      (x'.waiting = true ↔ p = .waiting) ∧
+      ∀ q ∈ x'.sys.procs, q.inbox.length + q.outbox.length = if x'.waiting then 1 else 0 := by
+  obtain ⟨x', sch', outs, h1, _, R⟩ :=
+    runAll_equiv E id envs.length cs .idle p (Sub.init envs) (Dum.init envs) sch (XRel.init E envs) h
+  refine ⟨x', sch', outs, h1, ?_⟩
+  cases p with
+  | closed => exact absurd rfl hp
+  | idle =>
+    obtain ⟨R0, hw, hcl, _⟩ := R
+    refine ⟨hcl, by simp [hw], ?_⟩
+    intro q hq
+    obtain ⟨h2, h3⟩ := R0.drained.1 q hq
+    simp [hw, h2, h3]
+  | waiting =>
+    obtain ⟨hw, hcl, hn, han, hviews, _, _, _, hlen⟩ := R
+    refine ⟨hcl, by simp [hw], ?_⟩
+    intro q hq
+    have hone := waiting_pending_one E (Dummy.ws (Dum.runAll E id (Dum.init envs) cs).1.d)
+      (Dum.runAll E id (Dum.init envs) cs).1.actions (by simp only [Dummy.ws, List.length_zipWith]; rw [← hlen, Nat.min_self, han, hn])
+    have hmem : view E q ∈ x'.sys.procs.map (view E) := List.mem_map_of_mem hq
+    rw [hviews] at hmem
+    have := hone _ hmem
+    rw [pending_length] at this
+    simp [hw, this]
+
 /-! ### the hypotheses are satisfiable by non-trivial data -/
 
 /-- a three-environment history mixing every operation kind, with repeated and permuted indices -/
@@ -240,5 +302,14 @@ example : ((Sys.runOps Scripted.sem (Sys.init exEnvs) [[2], [2, 1], [2, 1, 0, 0]
           ([1, 131328, 262400], [false, true, true], []),
           ([], [], [.int 5, .int 5, .int 10]), ([], [], []), ([], [], [.int 5, .int 0, .int 10]),
           ([256, 131584, 262401], [true, true, false], [])] := by decide +kernel
+
+/-- a history with a split step, a `close` while a step is outstanding and a second `close`: inside the protocol -/
+def exCalls : List (Call Int Nat) :=
+  [.op .reset, .stepAsync [0, 1, 2], .stepWait, .op (.isWrapped "PassThrough" (.many [2, 0])), .stepAsync [3, 3, 3],
+   .close, .close]
+
+example : phaseAfter exEnvs.length .idle exCalls = some .closed := by decide
+
+example : phaseAfter exEnvs.length .idle (exCalls.take 5) = some .waiting := by decide
 
 end SB3Verif.C02
